@@ -703,7 +703,7 @@ func vpC19Probe() {
 	})
 }
 
-var vpC19Methods = []string{"GET", "HEAD", "PUT", "POST", "DELETE", "PATCH", "VPCUSTOM"}
+var vpC19Methods = []string{"GET", "HEAD", "PUT", "POST", "DELETE", "PATCH", "OPTIONS", "TRACE", "CONNECT", "VPCUSTOM", "get"}
 
 func TestVP_C19_RetryScripts(t *testing.T) {
 	vpC19Probe()
